@@ -155,7 +155,8 @@ Proof. exact destroy_connected_refuted. Qed.
 Print Assumptions C12_destroy_connected_refuted.
 
 Theorem C12_foreign_destroy_refuted :
-  (text_admissible init w_f13a /\ run init w_f13a = None) /\ (text_admissible init w_f13b /\ run init w_f13b = None).
+  (text_admissible init w_f13a /\ run init w_f13a = None) /\ (text_admissible init w_f13b /\ run init w_f13b = None) /\
+  (text_admissible init w_f13c /\ run init w_f13c = None).
 Proof. exact foreign_destroy_refuted. Qed.
 Print Assumptions C12_foreign_destroy_refuted.
 
